@@ -21,11 +21,11 @@ RULE = ('inputs: symmetric sign patterns over {-,0,+} on 4 nodes with >=1 positi
         'iteration} x wei_freq in {0, 1, 0.5}, <=3 positive and <=3 negative connections (permutation menus <= 6!), plus '
         '5-node inputs whose negative support is one representative per isomorphism class of 5-edge (thorough: and 6-edge) '
         'graphs with tied dyadic magnitudes from {1/4,1/2,1} x wei_freq in {0.25,0.5,1}, and 5-node undirected / directed inputs with 5-6 negative connections x wei_freq in '
-        '{0.4, 0.7, 0.8} (not reciprocals of integers), inputs with one sign absent and fully connected 3-node inputs (the null models then skip the rewiring); ALL '
+        '{0.4, 0.7, 0.8} (not reciprocals of integers), inputs with one sign absent and fully connected 3-node inputs (the null models then skip the rewiring), inputs whose weights carry a common offset of 10^8; ALL '
         'generator answers per configuration; non-trivial = configuration with >= 2 distinct reachable outputs')
 ASSUMPTIONS = ['distinct integer magnitudes so every weight is identifiable (4-node inputs); tied dyadic magnitudes with additive '
                'coincidences on the 5-node null-model inputs', 'state merging as in C01',
-               'correlations compared NaN-equal with np.corrcoef recomputed from input and returned matrix']
+               'correlations compared NaN-equal with the Pearson correlation of the strength sequences of input and returned matrix evaluated in exact rational arithmetic (tolerance 1e-9; 1e-6 on the inputs with weights 10^8+k)']
 
 
 def und_patterns(max_nonzero):
@@ -210,6 +210,31 @@ def catalogue(thorough):
             for wf in (0, 1, 0.5):
                 cfgs.append({'fn': 'null_model_dir_sign', 'tag': tag, 'W': W,
                              'params': {'bin_iters': bi, 'wei_freq': wf, 'dir_rewirer': True}})
+    # weights with a large common offset (10^8 + k): strengths are large compared with their spread, which is where
+    # a one-pass correlation formula loses all its digits
+    for tag, W in small_u[:(8 if thorough else 3)]:
+        Wb = np.sign(W) * (1e8 + np.abs(W)) * (W != 0)
+        for wf in (1, 0.5):
+            cfgs.append({'fn': 'null_model_und_sign', 'tag': tag + '_offset1e8', 'W': Wb, 'params': {'bin_iters': 1, 'wei_freq': wf}})
+    # ... and degree-regular ones, where every strength is the same large number up to a few units
+    ring = np.zeros((4, 4))
+    for k, (a, b) in enumerate([(0, 1), (1, 2), (2, 3), (0, 3)]):
+        ring[a, b] = ring[b, a] = 1e8 + k + 1
+    for k, (a, b) in enumerate([(0, 2), (1, 3)]):
+        ring[a, b] = ring[b, a] = -(1e8 + 3 * k + 2)
+    for wf in (1, 0.5):
+        cfgs.append({'fn': 'null_model_und_sign', 'tag': 'regular4_offset1e8', 'W': ring, 'params': {'bin_iters': 0, 'wei_freq': wf}})
+    dring = np.zeros((4, 4))
+    for k, (a, b) in enumerate([(0, 1), (1, 2), (2, 3), (3, 0)]):
+        dring[a, b] = 1e8 + k + 1
+    for k, (a, b) in enumerate([(0, 2), (1, 3), (2, 0), (3, 1)]):
+        dring[a, b] = -(1e8 + 2 * k + 1)
+    cfgs.append({'fn': 'null_model_dir_sign', 'tag': 'dregular4_offset1e8', 'W': dring,
+                 'params': {'bin_iters': 0, 'wei_freq': 1, 'dir_rewirer': True}})
+    for tag, W in small_d[:(8 if thorough else 3)]:
+        Wb = np.sign(W) * (1e8 + np.abs(W)) * (W != 0)
+        cfgs.append({'fn': 'null_model_dir_sign', 'tag': tag + '_offset1e8', 'W': Wb,
+                     'params': {'bin_iters': 1, 'wei_freq': 1, 'dir_rewirer': True}})
     return cfgs
 
 
@@ -255,6 +280,23 @@ def judge_matrix(t, fn, R, W, case_fn):
     return bad
 
 
+def exact_pearson(x, y):
+    """Pearson correlation of two float vectors in exact rational arithmetic (NaN when a variance is zero)."""
+    from fractions import Fraction
+    import math
+    xs = [Fraction(float(v)) for v in x]
+    ys = [Fraction(float(v)) for v in y]
+    n = len(xs)
+    mx, my = sum(xs) / n, sum(ys) / n
+    sxy = sum((a - mx) * (b - my) for a, b in zip(xs, ys))
+    sxx = sum((a - mx) ** 2 for a in xs)
+    syy = sum((b - my) ** 2 for b in ys)
+    if sxx == 0 or syy == 0:
+        return float('nan')
+    r2 = sxy * sxy / (sxx * syy)
+    return math.copysign(math.sqrt(float(r2)), float(sxy)) if sxy != 0 else 0.0
+
+
 def judge(t, cfg, status, value, case_fn):
     fn = cfg['fn']
     W = np.array(cfg['W'], dtype=float)
@@ -277,9 +319,12 @@ def judge(t, cfg, status, value, case_fn):
             for ax in (0, 1):
                 x = np.sum(sgn * W * (sgn * W > 0), axis=ax)
                 y = np.sum(sgn * W0 * (sgn * W0 > 0), axis=ax)
-                with np.errstate(all='ignore'):
-                    exp.append(np.corrcoef(x, y)[0, 1])
-        if not orc.close(np.asarray(corr, dtype=float), np.asarray(exp, dtype=float)):
+                exp.append(exact_pearson(x, y))
+        # strengths of the order 10^8 with a spread of a few units: a careful two-pass evaluation is good to ~1e-8
+        tol = 1e-6 if np.max(np.abs(W)) > 1e6 else 1e-9
+        got = np.asarray(corr, dtype=float)
+        expa = np.asarray(exp, dtype=float)
+        if got.shape != expa.shape or not np.all((np.isnan(got) & np.isnan(expa)) | (np.abs(got - expa) <= tol)):
             t.viol(fn, 'strength_correlations', case_fn(), observed=corr, expected=exp, detail={'output': W0})
             bad = True
     return bad
